@@ -938,11 +938,68 @@ def replay_stall(case):
             "pause_requested_with_empty_queue_at_frame": paused_at, "max_fragments": im.r._max_fragments}
 
 
+def replay_stall_e2e(nframes, max_msg):
+    """Same finding through a real web.WebSocketResponse server on an in-memory transport: after _max_fragments
+    frames whose header and payload arrive in two reads the transport is paused and the handler stops receiving."""
+    import asyncio
+    import base64
+    from aiohttp import web
+    from harness.common.loop import VLoop
+    from harness.common.transport import start_server
+
+    async def main(loop):
+        got = []
+
+        async def handler(request):
+            ws = web.WebSocketResponse(max_msg_size=max_msg, heartbeat=None, autoping=False)
+            await ws.prepare(request)
+            async for m in ws:
+                got.append(m.data)
+            return ws
+        app = web.Application()
+        app.router.add_get("/ws", handler)
+        runner, connect = await start_server(app, loop)
+        proto, tr = connect()
+        key = base64.b64encode(bytes(range(16))).decode()
+        proto.data_received(("GET /ws HTTP/1.1\r\nHost: x\r\nUpgrade: websocket\r\nConnection: Upgrade\r\n"
+                             f"Sec-WebSocket-Key: {key}\r\nSec-WebSocket-Version: 13\r\n\r\n").encode())
+        for _ in range(5):
+            await asyncio.sleep(0)
+        unread = 0
+        mask = b"\x01\x02\x03\x04"
+        for _ in range(nframes):
+            f = frame(2, b"ab", mask=mask)
+            for part in (f[:6], f[6:]):
+                if tr.reading:
+                    proto.data_received(part)
+                else:
+                    unread += 1       # a real transport does not read while paused
+                for _ in range(3):
+                    await asyncio.sleep(0)
+        res = {"messages_received_by_handler": len(got), "transport_reading": tr.reading, "reads_never_delivered": unread}
+        tr.peer_close()
+        for _ in range(5):
+            await asyncio.sleep(0)
+        return res
+    loop = VLoop()
+    asyncio.set_event_loop(loop)
+    try:
+        return loop.run_until_complete(main(loop))
+    finally:
+        asyncio.set_event_loop(None)
+        loop.close()
+
+
 def replay(ctx, case):
     global _LOOP
     import asyncio
     if case.get("suite") == "stall":
-        return replay_stall(case)
+        r = replay_stall(case)
+        try:
+            r["end_to_end_server"] = replay_stall_e2e(case.get("frames", 1100), case.get("max", 1024))
+        except Exception as e:  # noqa
+            r["end_to_end_server"] = f"not run: {e!r}"
+        return r
     ok, exe = build_model()
     _LOOP = _LOOP or asyncio.new_event_loop()
     if case.get("suite") == "reader":
